@@ -169,8 +169,12 @@ def solver(A, fam, algo):
 
 def run_solver(A, fam, algo, policy, inp):
     """One call of a real solver on an abstract input -> event dict."""
+    import json
+    import zlib
+    # ancestral nodes are unnamed for every other input (labels are no part of the problem)
+    naming = "unnamed" if zlib.crc32(json.dumps(sinput_json(inp), sort_keys=True).encode()) % 2 else "unique"
     built = proj.build_input(A, inp, syn=inp["syn"], unordered=(fam == "un"),
-                             root_syn=inp["root"] if inp["root"] else None)
+                             root_syn=inp["root"] if inp["root"] else None, naming=naming)
     pol = A.dp.RetentionPolicy[policy]
     event = {"op": "solve", "fam": fam, "algo": algo, "policy": policy, "in": sinput_json(inp),
              "exc": "", "sols": [], "costs": [], "rcosts": [], "lcosts": []}
